@@ -88,6 +88,104 @@ type c32Args struct {
 	Before bool     `json:"before,omitempty"`
 	Box    string   `json:"box,omitempty"` // crop trim bleed art
 	Rect   *rect    `json:"rect,omitempty"`
+	Spec   *boxSpec `json:"spec,omitempty"` // box given relative to its parent box instead of as a rectangle
+}
+
+// boxSpec is a box definition relative to the parent box (media box for the crop box; crop box, or
+// the media box where there is none, for trim/bleed/art), in the forms pdfcpu documents
+// (model.ParseBox): dimensions anchored within the parent with an optional offset, or margins.
+type boxSpec struct {
+	Kind   string     `json:"kind"`             // dim | dimpct | margin1 | margin4 | marginpct
+	W      float64    `json:"w,omitempty"` // dim: points; dimpct: percent of the parent's width/height
+	H      float64    `json:"h,omitempty"`
+	Anchor string     `json:"anchor,omitempty"` // tl tc tr l c r bl bc br ("" = c, the documented default)
+	DX     int        `json:"dx,omitempty"`
+	DY     int        `json:"dy,omitempty"`
+	M      [4]float64 `json:"m,omitempty"`      // margins top right bottom left (margin1/marginpct: M[0] only)
+}
+
+// Text is the definition string handed to api.Box.
+func (b boxSpec) Text() string {
+	switch b.Kind {
+	case "dim", "dimpct":
+		var parts []string
+		if b.Anchor != "" {
+			parts = append(parts, "pos:"+b.Anchor)
+		}
+		if b.DX != 0 || b.DY != 0 {
+			parts = append(parts, fmt.Sprintf("off:%d %d", b.DX, b.DY))
+		}
+		if b.Kind == "dim" {
+			parts = append(parts, fmt.Sprintf("dim:%g %g", b.W, b.H))
+		} else {
+			parts = append(parts, fmt.Sprintf("dim:%g%% %g%%", b.W, b.H))
+		}
+		return strings.Join(parts, ", ")
+	case "margin1":
+		return fmt.Sprintf("%g", b.M[0])
+	case "margin4":
+		return fmt.Sprintf("%g %g %g %g", b.M[0], b.M[1], b.M[2], b.M[3])
+	case "marginpct":
+		return fmt.Sprintf("%g%%", b.M[0])
+	}
+	return ""
+}
+
+// Resolve computes the rectangle the definition denotes within parent, from the documented meaning
+// of the forms (plain geometry, written independently of pdfcpu's implementation).
+func (b boxSpec) Resolve(parent rect) rect {
+	pw, ph := parent[2]-parent[0], parent[3]-parent[1]
+	switch b.Kind {
+	case "dim", "dimpct":
+		w, h := b.W, b.H
+		if b.Kind == "dimpct" {
+			w, h = pw*b.W/100, ph*b.H/100
+		}
+		a := b.Anchor
+		if a == "" {
+			a = "c"
+		}
+		var x, y float64
+		switch { // horizontal
+		case strings.HasSuffix(a, "l"):
+			x = parent[0]
+		case strings.HasSuffix(a, "r"):
+			x = parent[2] - w
+		default: // c, tc, bc
+			x = parent[0] + (pw-w)/2
+		}
+		switch { // vertical
+		case strings.HasPrefix(a, "t"):
+			y = parent[3] - h
+		case strings.HasPrefix(a, "b"):
+			y = parent[1]
+		default: // l, c, r
+			y = parent[1] + (ph-h)/2
+		}
+		x, y = x+float64(b.DX), y+float64(b.DY)
+		return rect{x, y, x + w, y + h}
+	case "margin1":
+		return rect{parent[0] + b.M[0], parent[1] + b.M[0], parent[2] - b.M[0], parent[3] - b.M[0]}
+	case "margin4":
+		return rect{parent[0] + b.M[3], parent[1] + b.M[2], parent[2] - b.M[1], parent[3] - b.M[0]}
+	case "marginpct":
+		return rect{parent[0] + pw*b.M[0]/100, parent[1] + ph*b.M[0]/100, parent[2] - pw*b.M[0]/100, parent[3] - ph*b.M[0]/100}
+	}
+	return parent
+}
+
+func roundRect(r rect) rect { return rect{round2(r[0]), round2(r[1]), round2(r[2]), round2(r[3])} }
+
+// boxFor is the rectangle a box-add / crop step gives page p.
+func (a c32Args) boxFor(p pg, box string) rect {
+	if a.Spec == nil {
+		return *a.Rect
+	}
+	parent := p.Media
+	if box != "crop" && p.Crop != nil {
+		parent = *p.Crop
+	}
+	return roundRect(a.Spec.Resolve(parent))
 }
 
 func inSet(pages []int) map[int]bool {
@@ -164,7 +262,7 @@ func (m *c32Model) Apply(s Step) bool {
 	case "box-add":
 		for i := range m.Pages {
 			if sel[i+1] {
-				r := *a.Rect
+				r := a.boxFor(m.Pages[i], a.Box)
 				switch a.Box {
 				case "crop":
 					m.Pages[i].Crop = &r
@@ -197,7 +295,7 @@ func (m *c32Model) Apply(s Step) bool {
 	case "crop":
 		for i := range m.Pages {
 			if sel[i+1] {
-				r := *a.Rect
+				r := a.boxFor(m.Pages[i], "crop")
 				m.Pages[i].Crop = &r
 			}
 		}
@@ -219,7 +317,8 @@ func genDoc(n int) ([]byte, []pg) {
 	var pages []pdfgen.PageSpec
 	var truth []pg
 	groupRot := []int{0, 90, 180}
-	groupBox := [][4]float64{{0, 0, 300, 400}, {0, 0, 500, 300}}
+	// some media boxes do not start at the origin; all contain [100,280] x [50,320], where absolute boxes are drawn
+	groupBox := [][4]float64{{0, 0, 300, 400}, {50, 30, 550, 330}}
 	for i := 0; i < n; i++ {
 		p := pdfgen.PageSpec{Marker: fmt.Sprintf("PAGE-%02d-of-%02d-marker", i+1, n)}
 		g := i / 3
@@ -232,12 +331,18 @@ func genDoc(n int) ([]byte, []pg) {
 			t.Rot = r
 		}
 		if rng.IntN(4) == 0 {
-			b := [4]float64{0, 0, float64(200 + 50*rng.IntN(5)), float64(250 + 50*rng.IntN(5))}
+			b := [4]float64{0, 0, float64(300 + 50*rng.IntN(5)), float64(350 + 50*rng.IntN(5))}
+			switch rng.IntN(3) {
+			case 0:
+				b = [4]float64{100, 50, b[2] + 100, b[3] + 50}
+			case 1:
+				b = [4]float64{-50, -50, b[2] - 50 + 50, b[3] - 50 + 50}
+			}
 			p.MediaBox = &b
 			t.Media = rect(b)
 		}
 		if rng.IntN(6) == 0 {
-			b := [4]float64{10, 10, 150, 200}
+			b := [4]float64{110, 60, 250, 300}
 			p.CropBox = &b
 			c := rect(b)
 			t.Crop = &c
@@ -462,14 +567,20 @@ func (c32Store) Gen(rng *rand.Rand, mm Model, aux string) Step {
 			}
 		case 7:
 			sel, pages := selection(rng, n, false)
-			r := rect{float64(5 * rng.IntN(4)), float64(5 * rng.IntN(4)), float64(100 + 10*rng.IntN(8)), float64(120 + 10*rng.IntN(8))}
+			if rng.IntN(2) == 0 {
+				return mk("box-add", c32Args{Sel: sel, Pages: pages, Box: boxes[rng.IntN(4)], Spec: genBoxSpec(rng)})
+			}
+			r := rect{float64(100 + 5*rng.IntN(4)), float64(50 + 5*rng.IntN(4)), float64(200 + 10*rng.IntN(8)), float64(250 + 10*rng.IntN(8))}
 			return mk("box-add", c32Args{Sel: sel, Pages: pages, Box: boxes[rng.IntN(4)], Rect: &r})
 		case 8:
 			sel, pages := selection(rng, n, false)
 			return mk("box-remove", c32Args{Sel: sel, Pages: pages, Box: boxes[rng.IntN(4)]})
 		case 9:
 			sel, pages := selection(rng, n, false)
-			r := rect{float64(5 * rng.IntN(4)), float64(5 * rng.IntN(4)), float64(100 + 10*rng.IntN(8)), float64(120 + 10*rng.IntN(8))}
+			if rng.IntN(2) == 0 {
+				return mk("crop", c32Args{Sel: sel, Pages: pages, Spec: genBoxSpec(rng)})
+			}
+			r := rect{float64(100 + 5*rng.IntN(4)), float64(50 + 5*rng.IntN(4)), float64(200 + 10*rng.IntN(8)), float64(250 + 10*rng.IntN(8))}
 			return mk("crop", c32Args{Sel: sel, Pages: pages, Rect: &r})
 		}
 	}
@@ -477,6 +588,37 @@ func (c32Store) Gen(rng *rand.Rand, mm Model, aux string) Step {
 
 func mbox(r *rect) *model.Box {
 	return &model.Box{Rect: types.NewRectangle(r[0], r[1], r[2], r[3])}
+}
+
+// genBoxSpec draws a parent-relative box definition that stays inside every parent the documents
+// and earlier steps can produce (the smallest parent is 40 x 40).
+func genBoxSpec(rng *rand.Rand) *boxSpec {
+	anchors := []string{"", "tl", "tc", "tr", "l", "c", "r", "bl", "bc", "br"}
+	switch rng.IntN(6) {
+	case 0, 1:
+		b := &boxSpec{Kind: "dim", W: float64(20 + 2*rng.IntN(8)), H: float64(20 + 2*rng.IntN(8)), Anchor: anchors[rng.IntN(len(anchors))]}
+		if rng.IntN(3) == 0 {
+			b.DX, b.DY = rng.IntN(5)-2, rng.IntN(5)-2
+		}
+		return b
+	case 2:
+		return &boxSpec{Kind: "dimpct", W: float64(50 + 10*rng.IntN(5)), H: float64(50 + 10*rng.IntN(5)), Anchor: anchors[rng.IntN(len(anchors))]}
+	case 3:
+		return &boxSpec{Kind: "margin1", M: [4]float64{float64(2 + rng.IntN(4))}}
+	case 4:
+		return &boxSpec{Kind: "margin4", M: [4]float64{float64(2 + rng.IntN(3)), float64(2 + rng.IntN(3)), float64(2 + rng.IntN(3)), float64(2 + rng.IntN(3))}}
+	default:
+		return &boxSpec{Kind: "marginpct", M: [4]float64{float64(5 * (1 + rng.IntN(3)))}}
+	}
+}
+
+// apiBox turns a step's box into the model.Box the API takes: an explicit rectangle, or the
+// definition string parsed by pdfcpu's own parser (the documented user-facing form).
+func apiBox(a c32Args) (*model.Box, error) {
+	if a.Spec == nil {
+		return mbox(a.Rect), nil
+	}
+	return api.Box(a.Spec.Text(), types.POINTS)
 }
 
 func (c32Store) Exec(s Step, path, aux string) error {
@@ -495,15 +637,19 @@ func (c32Store) Exec(s Step, path, aux string) error {
 		return api.InsertPagesFile(path, "", a.Sel, a.Before, nil, dsConf())
 	case "box-add":
 		pb := &model.PageBoundaries{}
+		b, err := apiBox(a)
+		if err != nil {
+			return fmt.Errorf("harness: box definition %q: %w", a.Spec.Text(), err)
+		}
 		switch a.Box {
 		case "crop":
-			pb.Crop = mbox(a.Rect)
+			pb.Crop = b
 		case "trim":
-			pb.Trim = mbox(a.Rect)
+			pb.Trim = b
 		case "bleed":
-			pb.Bleed = mbox(a.Rect)
+			pb.Bleed = b
 		case "art":
-			pb.Art = mbox(a.Rect)
+			pb.Art = b
 		}
 		return api.AddBoxesFile(path, "", a.Sel, pb, dsConf())
 	case "box-remove":
@@ -513,13 +659,17 @@ func (c32Store) Exec(s Step, path, aux string) error {
 		}
 		return api.RemoveBoxesFile(path, "", a.Sel, pb, dsConf())
 	case "crop":
-		return api.CropFile(path, "", a.Sel, mbox(a.Rect), dsConf())
+		b, err := apiBox(a)
+		if err != nil {
+			return fmt.Errorf("harness: box definition %q: %w", a.Spec.Text(), err)
+		}
+		return api.CropFile(path, "", a.Sel, b, dsConf())
 	}
 	return fmt.Errorf("harness: unknown op %s", s.Op)
 }
 
 func init() {
 	core.Register(histProp{id: "C32", store: c32Store{}, maxLen: 8, quickN: 30, thoroughN: 1500,
-		rule: "seeded histories of 1-8 page operations (rotate by +-90/180/270, remove, trim, collect with repetitions, insert blank pages before/after, add/remove crop/trim/bleed/art boxes given as absolute rectangles, crop) with explicit page numbers, simple ranges and ranges with excluded pages (a-b,!x) as selections, on documents written by an independent generator (2-30 pages, unique marker text per page, /Rotate and /MediaBox partly inherited from intermediate page-tree nodes, mixed rotations and sizes) and on corpus files. After every step page count, per-page content identity, effective rotation and the boxes are compared with a page-list model; unselected pages must be identical to the previous step. Faults/crash snapshots per step as for C35. Distinct by (document, step sequence); non-trivial when a step succeeded.",
+		rule: "seeded histories of 1-8 page operations (rotate by +-90/180/270, remove, trim, collect with repetitions, insert blank pages before/after, add/remove crop/trim/bleed/art boxes and crop, with the box given as an absolute rectangle or relative to its parent box: dimensions in points or percent anchored at one of nine positions with an optional offset, one or four absolute margins, a percentage margin) with explicit page numbers, simple ranges and ranges with excluded pages (a-b,!x) as selections, on documents written by an independent generator (2-30 pages, unique marker text per page, /Rotate and /MediaBox partly inherited from intermediate page-tree nodes, mixed rotations and sizes, media boxes that do not start at the origin) and on corpus files. After every step page count, per-page content identity, effective rotation and the boxes are compared with a page-list model; unselected pages must be identical to the previous step. Faults/crash snapshots per step as for C35. Distinct by (document, step sequence); non-trivial when a step succeeded.",
 		assumptions: []string{"page content identity is the hash of the decoded content stream as pdfcpu extracts it", "selection syntax beyond explicit numbers, a-b ranges and !x exclusions is C31's subject and not used"}})
 }
